@@ -770,6 +770,14 @@ static int janet_chan_pack(JanetChannel *chan, Janet *x) {
             }
             janet_restore(&tstate);
             if (sig) {
+                /* Threaded abstracts that were already written to the buffer had their reference
+                 * count incremented for the transit - give those references back. The clean-up
+                 * unmarshal stops with an error where the marshalling stopped. */
+                JanetTryState cstate;
+                if (!janet_try(&cstate)) {
+                    janet_unmarshal(buf->data, buf->count, JANET_MARSHAL_UNSAFE | JANET_MARSHAL_DECREF, NULL, NULL);
+                }
+                janet_restore(&cstate);
                 janet_buffer_deinit(buf);
                 janet_free(buf);
                 *x = tstate.payload;
